@@ -882,7 +882,14 @@ def unit_int_region(ctx):
         pts = _probe_list(geo, ax)
         a = _pick(ctx, "lo", pts, 0, len(pts))
         b = _pick(ctx, "hi", pts, a, len(pts))
-        _do_range(ctx, geo, mesh, field, ax, pts[a][2], pts[b][2], f"{pts[a][:2]}..{pts[b][:2]}", with_mesh=True)
+        # how the two bounds are typed: as floats, or as Python ints wherever the coordinate is integral (so that an
+        # integer bound meets a fractional one in the same call)
+        typed = ctx.choose("bound-types", ["float", "int-where-integral"])
+        lo, hi = pts[a][2], pts[b][2]
+        if typed == "int-where-integral":
+            lo = int(lo) if float(lo).is_integer() else lo
+            hi = int(hi) if float(hi).is_integer() else hi
+        _do_range(ctx, geo, mesh, field, ax, lo, hi, f"{pts[a][:2]}..{pts[b][:2]}", with_mesh=True)
 
 
 
